@@ -1,6 +1,7 @@
 /- Line-protocol front end of the commit-log model (see harness/commitlog). -/
 import Liftbridge.Model.Log
 import Liftbridge.Model.Compact
+import Liftbridge.Model.Subscribe
 import Liftbridge.Driver.Crc
 
 namespace Liftbridge.Driver
@@ -149,6 +150,7 @@ def logStep' (cfg : CleanCfg) (l : CLog) (toks : List String) : CLog × String :
       (l, showRes showRecs r)
     | none => (l, "bad-op")
   | ["state"] => (l, "ok | " ++ showState l)
+  | ["roll"] => let l' := if l.active.recs.isEmpty then l else l.roll; (l', "ok | " ++ showState l')
   | ["clean", ttl] =>
     match ttl.toInt? with
     | some ttl => let l' := Compact.cleanLog cfg.lim ttl cfg.compact l; (l', "ok | " ++ showState l')
@@ -163,7 +165,32 @@ where
 structure LogSt where
   cfg : CleanCfg := {}
   l : CLog := CLog.init 1024 false
+  sub : Option Subscribe.Sub := none
   deriving Inhabited
+
+def showRecBrief (r : Rec) : String :=
+  s!"{r.offset}:{r.ts}:{showBytes r.body.key}:{showBytes r.body.val}"
+
+def showEnding : Subscribe.Ending → String
+  | .waiting => "waiting"
+  | .status s => "status " ++ s
+
+def parseStart (s : String) : Option Subscribe.StartPos :=
+  match s.splitOn ":" with
+  | ["e"] => some .earliest
+  | ["l"] => some .latest
+  | ["n"] => some .newOnly
+  | ["o", n] => n.toInt?.map .offset
+  | ["t", n] => n.toInt?.map .timestamp
+  | _ => none
+
+def parseStop (s : String) : Option Subscribe.StopPos :=
+  match s.splitOn ":" with
+  | ["c"] => some .onCancel
+  | ["l"] => some .latest
+  | ["o", n] => n.toInt?.map .offset
+  | ["t", n] => n.toInt?.map .timestamp
+  | _ => none
 
 def logStep (st : LogSt) (toks : List String) : LogSt × String :=
   match toks with
@@ -171,6 +198,31 @@ def logStep (st : LogSt) (toks : List String) : LogSt × String :=
     match m.toInt?, parseCfg {} kvs with
     | some m, some cfg => let l := CLog.init m (occ = "1"); ({ cfg := cfg, l := l }, "ok | " ++ showState l)
     | _, _ => (st, "bad-op")
+  | ["sub", a, b, rev] =>
+    match parseStart a, parseStop b with
+    | some sa, some sb =>
+      match Subscribe.create st.l { start := sa, stop := sb, reverse := rev = "1" } with
+      | .refused status => ({ st with sub := none }, "refused " ++ status)
+      | .live d e sub => ({ st with sub := some sub }, s!"ok {" ".intercalate (d.map showRecBrief)} | {showEnding e}")
+    | _, _ => (st, "bad-op")
+  | ["drain"] =>
+    match st.sub with
+    | none => (st, "err no-subscription")
+    | some sub =>
+      let (d, e, sub') := Subscribe.drain st.l sub
+      ({ st with sub := some sub' }, s!"ok {" ".intercalate (d.map showRecBrief)} | {showEnding e}")
+  | ["tsearliest", t] =>
+    match t.toInt? with
+    | some t => (st, match Subscribe.earliestAfterTs st.l t with | .ok o => s!"ok {o}" | .err e => "err " ++ e | .panic => "panic")
+    | none => (st, "bad-op")
+  | ["tslatest", t] =>
+    match t.toInt? with
+    | some t => (st, match Subscribe.latestBeforeTs st.l t with | .ok o => s!"ok {o}" | .err e => "err " ++ e | .panic => "panic")
+    | none => (st, "bad-op")
+  | ["revread", o] =>
+    match o.toInt? with
+    | some o => (st, match Subscribe.reverseRecs st.l o with | .ok rs => "ok " ++ " ".intercalate (rs.map showRecBrief) | .err e => "err " ++ e | .panic => "panic")
+    | none => (st, "bad-op")
   | _ => let (l, out) := logStep' st.cfg st.l toks; ({ st with l := l }, out)
 
 end Liftbridge.Driver
